@@ -58,6 +58,10 @@ def runOp (op : String) (p : List Nat) (s : List Float) : String :=
     if k < 1 || k > 64 then "bad-op" else
     fin s ((Normal.sampleN k ⟨fl m, fl sd, none⟩ s).map fun (xs, _, r) => (xs, r))
       fun xs => joinSp (xs.map hx)
+  | "normop", [kind, m1, sd1, m2, sd2, p1, p2, k] =>
+    if kind < 1 || kind > 3 || p1 > 8 || p2 > 8 || k > 8 then "bad-op" else
+    fin s (Normal.specialOp kind p1 p2 k ⟨fl m1, fl sd1, none⟩ ⟨fl m2, fl sd2, none⟩ s)
+      fun xs => joinSp (xs.map hx)
   | "gamma", [a, b, k] =>
     if k < 1 || k > 64 then "bad-op" else
     fin s ((Gamma.sampleN fuel k (Gamma.mk' (fl a) (fl b)) s).map fun (xs, _, r) => (xs, r))
